@@ -101,6 +101,14 @@ CHECKS = {
         "Trusted: msdparser (gaps excluded operationally and counted); SSC charts without note data are outside the domain.",
         "DESIGN.md 5 (C04)",
     ),
+
+    "C18": (
+        "model_checking",
+        "explicit-state breadth-first search to a fixpoint over closed state graphs (all ordered partial assignments of standard/alias/unrelated key x all operations) on real simfile and chart objects in lock-step with a dictionary model; likewise for the SM chart over {values}^6",
+        "For every known property of SMSimfile, SSCSimfile and SSCChart (aliases stops/FREEZES, bgchanges/ANIMATIONS, notes/NOTES2) every reachable model state x every operation (attribute get/set/del, key get/set/del/in on standard, alias and unrelated key, items) is executed on the real object: result or exception class, ordered items, attribute precedence, equality and serialization against an object built directly from the model state. Because the graph closes, this covers histories of any length over the alphabet. SM chart: all reachable states over {values}^6 under attribute/key/lower-case/unrelated-key operations, setdefault, update, pop, popitem.",
+        "Trusted: the dictionary + alias model (mc/drivers/c18.py m_apply). For a case variant of an SM field name 'refused' or 'assigned to the field' are both accepted; clear()/move_to_end() are outside the statement's operation alphabet.",
+        "DESIGN.md 5 (C18)",
+    ),
 }
 
 PLANNED = "check not built yet (work in progress this round; design in DESIGN.md section 5)"
